@@ -33,6 +33,7 @@ InitState == [known |-> {},         \* transactions some provider has answered i
               spent |-> {},          \* outputs <<t, n>> whose spent flag some provider has answered
               count |-> FALSE,       \* the block count has been answered
               blockKnown |-> FALSE,  \* block header answered
+              alone |-> {},          \* transactions answered by a query for that single transaction (their place in a block is not known to the cache)
               fee |-> <<>>]          \* fee group -> value answered and stored  (function with domain \subseteq groups)
 
 HasFee(s, g) == g \in DOMAIN s.fee
@@ -46,7 +47,8 @@ Succ(s, e) ==
          IF ~e.ok THEN (IF e.prov = "fail" THEN {s} ELSE {})
          ELSE IF e.ret # e.t THEN {}                                   \* someone else's / corrupted transaction
          \* storing is the cache's choice; a transaction answered in full carries the spent flags of its outputs
-         ELSE IF e.prov = "ok" THEN {[s EXCEPT !.known = @ \cup {e.t}, !.spent = @ \cup TxOutputs(e.t)], [s EXCEPT !.known = @ \cup {e.t}], s}
+         ELSE IF e.prov = "ok" THEN {[s EXCEPT !.known = @ \cup {e.t}, !.alone = @ \cup {e.t}, !.spent = @ \cup TxOutputs(e.t)],
+                                    [s EXCEPT !.known = @ \cup {e.t}, !.alone = @ \cup {e.t}], s}
          ELSE IF e.t \in s.known THEN {s} ELSE {}                      \* nobody answered now or earlier: fabricated
     [] e.op = "raw" ->       \* getrawtransaction(e.t)
          IF ~e.ok THEN (IF e.prov = "fail" THEN {s} ELSE {})
@@ -117,6 +119,8 @@ SuccDevAfterInsideBlock(s, e) ==
     IF /\ e.op = "txs" /\ e.ok /\ e.after > 0 /\ e.ret # e.full /\ "sameblock" \in DOMAIN e
        /\ ((SetOf(e.ret) \ SetOf(e.full)) \cup (SetOf(e.full) \ SetOf(e.ret))) \subseteq SetOf(e.sameblock)
        /\ (SetOf(e.ret) \cup SetOf(e.full)) \subseteq s.known \cup SetOf(e.full)
+       \* the unchanged tree gets the order wrong only where a transaction of that block came into the cache on its own
+       /\ SetOf(e.sameblock) \cap s.alone # {}
     THEN {s} ELSE {}
 SuccDevBalanceZero(s, e) == IF e.op = "balance" /\ e.prov = "fail" /\ e.ok /\ e.ret = 0 THEN {s} ELSE {}
 SuccDevIsSpentFalse(s, e) == IF e.op = "isspent" /\ e.prov = "fail" /\ e.ok /\ e.ret = FALSE THEN {s} ELSE {}
